@@ -13,7 +13,7 @@ import re
 
 from vf import fm
 from vf.core import Collector
-from vf.docbase import DocProp, first_line_diff, line_kind, rand_opts
+from vf.docbase import DocProp, ellipsis_mechanism, first_line_diff, line_kind, rand_opts
 from vf.gen_doc import gen_doc
 from vf.props.c02 import tag_boundaries
 
@@ -138,8 +138,11 @@ class C03(DocProp):
         a = re.sub(r"(?m)^[ >]+", "", a)
         b = re.sub(r"(?m)^[ >]+", "", b)
         steps = []
-        if o.get("ellipses"):
-            steps.append((f"C03/{kind}/caused-by/ellipsis-at-line-start", lambda t: sq(sq(t).replace(" ...", "...").replace("... ", "..."))))
+        em = "ellipsis-at-line-start"
+        if kind == "history" and case.get("_mid") is not None:
+            em = ellipsis_mechanism(case["_mid"], case["_via"])
+        if o.get("ellipses") and em:
+            steps.append((f"C03/{kind}/caused-by/{em}", lambda t: sq(sq(t).replace(" ...", "...").replace("... ", "..."))))
         if o.get("smartquotes") and kind == "history":
             steps.append(("C03/history/caused-by/smartquotes-needs-second-pass", unq))
         # an escaped period is un-escaped by the renderer wherever it is not needed, so in the known
@@ -190,7 +193,7 @@ class C03(DocProp):
             col.hist("pair", f"{p1}->{p2}")
             if via != direct:
                 dd = first_line_diff(direct, via)
-                desc = self.classify(direct, via, o2, "history", case, dd)
+                desc = self.classify(direct, via, o2, "history", dict(case, _mid=mid, _via=via), dd)
                 col.violation("history", desc, dict(case, pairs=[[p1, p2]]),
                               {"o1": [p1[0], p1[1]], "o2": [p2[0], p2[1]], "line": dd[0], "direct": dd[1], "via": dd[2]})
 
